@@ -450,7 +450,8 @@ def _worker(job):
             out["features"] = sorted(feats)
             out["npu_stream_ops"] = nops
             try:
-                sets = c01_lib.make_inputs(rng, data, k_inputs)
+                out["input_specs"] = c01_lib.input_specs(data)
+                sets = c01_lib.inputs_from_specs(rng, out["input_specs"], k_inputs)
                 line, sg, og = c01_lib.build_request(data, res, sets, capture)
                 out["line"] = line
                 out["out_kinds"] = og.kinds
@@ -576,6 +577,24 @@ def main():
         if ans.endswith("verdict=fail"):
             ck.violation(f"compiled model differs from the source model: {ans[:400]} "
                          f"(network {o['idx']} {o['profile']} {o['src_ops']} {o['opts']})", rp, key=classify_failure(o, ans))
+        m = re.search(r"exptab seen=(\d+) bad=(\d+) first=(\S+)", ans)
+        if m:
+            ck.count("softmax_exp_tables_compared", int(m.group(1)))
+            if int(m.group(1)) > 0 and o["src_ops"][-1] == "SOFTMAX" and re.search(r"cls=1 maxdiff=0 ", ans):
+                ck.count("softmax_networks_bit_exact")
+            if int(m.group(2)) > 0 and not ans.endswith("verdict=fail"):
+                # Correspondence stream: the table of exponentials the stream installs differs from exp_on_negative_values of
+                # the reference parameters, but the outputs agreed on the K input sets. Failing-input search: more input sets.
+                import c01_lib
+
+                r2 = random.Random(o["idx"] * 7919 + 17)
+                more = c01_lib.inputs_from_specs(r2, [tuple(sp) for sp in o["input_specs"]], 48, first=6)
+                ans2 = common.run_model([c01_lib.with_inputs(line, more)])[0]
+                rp2 = dict(rp, verdict=ans2[:2000], request=c01_lib.with_inputs(line, more), exptab=m.group(0))
+                ck.violation(f"SOFTMAX table of exponentials differs from the reference (exp_on_negative_values of the rescaled input "
+                             f"difference, PreprocessSoftmaxScaling in double): {m.group(0)} (table/entry/reference/stream); "
+                             f"wider input sample: {ans2[:200]} (network {o['idx']} {o['profile']} {o['src_ops']} {o['opts']})",
+                             rp2, found_input=ans2.endswith("verdict=fail"))
     for o, ans in list(zip(owners, answers))[:4]:
         ck.sample({"network": o["desc"], "opts": o["opts"], "features": o.get("features"), "verdict": ans[:300]})
     ck.finish({
